@@ -153,6 +153,8 @@ type Dir struct {
 	finQueued  bool // writer shut down; FIN follows the in-flight bytes
 	finDeliv   bool
 	rst        bool // reader sees ECONNRESET
+	RstOnce    bool // the reset is reported by one Read only; later reads see end of stream (Linux)
+	rstSeen    bool
 	readerGone bool // reader closed: writes fail
 	Auto       bool // deliver on write
 	Window     int  // <0 unlimited; else writes block while inflight+readable >= Window
@@ -263,6 +265,12 @@ func (e *End) Read(p []byte) (int, error) {
 	}
 	// bytes that were delivered before a reset stay readable (Linux); Reset(false) drops them
 	if d.rst && len(d.readable) == 0 {
+		if d.RstOnce && d.rstSeen {
+			n.S.Logf(e.key(), "read -> EOF (reset already reported)")
+			n.S.Count("read_eof_after_reported_reset")
+			return 0, io.EOF
+		}
+		d.rstSeen = true
 		n.S.Logf(e.key(), "read -> ECONNRESET")
 		return 0, opErr("read", syscall.ECONNRESET)
 	}
